@@ -106,6 +106,7 @@ func getSwapOutReceiverStates() States {
 			Events: Events{
 				Event_ActionSucceeded: State_ClaimedCsv,
 				Event_OnRetry:         State_SwapOutReceiver_ClaimSwapCsv,
+				Event_OnTimeout:       State_SwapOutReceiver_ClaimSwapCsv,
 			},
 		},
 		State_SendCancel: {
